@@ -161,6 +161,27 @@ pub fn check_user_positions(name: &str, text: &str, dir: &Path, case: &Value) ->
             observed: format!("{shown:?}\n{text}"),
         });
     }
+    // A label that spans several lines is displayed down to its last line.
+    for f in &a.findings {
+        let Some(l) = f.primary.first() else { continue };
+        let (sl, sc) = line_col(text, l.start);
+        let (el, _) = line_col(text, l.end.saturating_sub(1).max(l.start));
+        if el <= sl {
+            continue;
+        }
+        for d in run.diagnostics.iter().filter(|d| d.id.as_deref() == Some(f.id.as_str()) && d.location.as_ref().map(|(_, dl, dc)| *dl == sl && *dc == sc).unwrap_or(false)) {
+            if d.snippet_lines.iter().copied().max().unwrap_or(0) < el {
+                out.push(Violation {
+                    signature: "displayed-label-extent".into(),
+                    what: format!("corpus {name}: the label of `{}` covers lines {sl}-{el} but the terminal shows source lines {:?} only", f.short(), d.snippet_lines),
+                    case: case.clone(),
+                    expected: format!("the snippet reaches line {el}"),
+                    observed: text.to_string(),
+                });
+                break;
+            }
+        }
+    }
     if let Some(s) = &run.sarif {
         let (results, _) = sarif_results(s);
         let mut exp: Vec<String> = a
